@@ -31,6 +31,10 @@ claimed = {
    text="Seeded schedule search over every open/flock/unlock/close/content operation of up to 6 goroutines in 1-3 simulated processes using every lockedfile entry point (all OpenFile flag combinations, Open, Create, Edit, Mutex, Read, Write, Transform) on regular and FIFO lock files, with EINTR storms, ENOLCK, failing truncate and failing close injected. Oracles: behavioural holder table (a writer never coexists with anyone), kernel-side truth (the returned descriptor holds the prescribed flock mode from return until Close is called and not after), content operations only under the right lock, failed opens leave no descriptor, no deadlock / bounded progress.",
    note="The kernel's real flock (LOCK_NB) is the arbiter; flock conflicts are per open file description, so simulated processes = task groups with private descriptors. Workload never nests locks.",
    tech="deterministic simulation with fault injection: seeded scheduler over intercepted open/flock/close, real kernel flock, holder-table + kernel-side lock-table invariants"),
+ "C07": dict(cat="exploration", ref="3 (C07), 6 (F2)",
+   text="Seeded schedule search over Read/Write/Transform calls of up to 6 goroutines in 1-3 simulated processes on one file (self-checking values of 0..70000 bytes, chunked writes, page-granular torn transfers), histories of at most 24 operations stamped with the simulator's global event sequence and checked with porcupine against a register model (stale reads, lost updates, real-time order), plus a torn-value detector on every Read and on the bytes Transform hands to its function. Fault scenario: one Transform in its own process has its k-th file operation fail or write short then fail (or its function fails) for longer / shorter / same-length results; a Transform that returned an error must be a no-op in the model. Known finding F2 (empty read of a file that was absent) is reported as KNOWN-FINDING, every other violation exits 1.",
+   note="Single fault per run for the rollback clause (double faults only assert no panic / no deadlock). Faults are injected only into Transform. porcupine Unknown (timeout) is counted, never reported as pass or fail.",
+   tech="deterministic simulation with fault injection: seeded scheduler over intercepted file/flock operations, porcupine linearizability check of the recorded history, torn-value detector"),
 }
 na = {
  "C02": "pure function of the line text and the assignment history: no schedule, clock, fault or second party for a simulator to own",
